@@ -64,7 +64,7 @@ class Budget:
                 x = self._split_sum(l)
                 if x is not None:
                     a = self._amount(x)
-                    env[BKEY] = ("c", a[1] + 1) if a[0] == "c" else a
+                    env[BKEY] = ("c", a[1] + 1) if a[0] == "c" else ("s", a[1], a[2] + 1)
         return True
 
     def _on_event(self, ev, env, facts):
@@ -134,6 +134,17 @@ class Budget:
         if budget[0] == "s" and need[0] == "c":
             return budget[2] >= need[1]
         return False
+
+    @staticmethod
+    def slack(budget, need):
+        """bytes guaranteed beyond what the read takes (None if not comparable)"""
+        if budget is None:
+            return None
+        if budget[0] == "c" and need[0] == "c":
+            return budget[1] - need[1]
+        if budget[0] == "s" and need[0] == "s" and budget[1] == need[1]:
+            return budget[2] - need[2]
+        return None
 
     def check(self, rule, min_reads=1, why=""):
         rs = self.reads()
